@@ -23,6 +23,7 @@ import (
 type Param struct{ Name, Type string }
 
 type Clause struct {
+	AbruptOnly       bool   // an assigns designator that applies to panicking exits only
 	Assumed          bool   // used by callers, not checked against the body
 	Kind             string // requires ensures ensures_panic invariant decreases assigns axiom lemma
 	Label            string
@@ -111,7 +112,7 @@ type ContractSet struct {
 
 var recoveredRe = regexp.MustCompile(`\brecovered\b`)
 
-var clauseRe = regexp.MustCompile(`^(requires|ensures_panic|ensures_abrupt_assumed|ensures_abrupt|ensures_assumed|ensures|assigns|safe|pure|trusted|inline|uninterpreted|overflow-checked|wrap64|nopanic|maypanic|script|sweep-callers|ghost|capture|exitvars|timeout|props|replay_assume|replay|observe)\b\s*(.*)$`)
+var clauseRe = regexp.MustCompile(`^(requires|assigns_abrupt|ensures_panic|ensures_abrupt_assumed|ensures_abrupt|ensures_assumed|ensures|assigns|safe|pure|trusted|inline|uninterpreted|overflow-checked|wrap64|nopanic|maypanic|script|sweep-callers|ghost|capture|exitvars|timeout|props|replay_assume|replay|observe)\b\s*(.*)$`)
 var labelRe = regexp.MustCompile(`\s+\[([A-Za-z0-9_:.#+\-]+)\]\s*$`)
 
 // parseContractFile reads one contract file.
@@ -367,6 +368,13 @@ func parseContractFile(cs *ContractSet, path, pkgDir string) {
 			case "assigns":
 				for _, d := range splitTop(m[2], ',') {
 					cur.Assigns = append(cur.Assigns, mk("assigns", strings.TrimSpace(d)))
+				}
+			case "assigns_abrupt":
+				// designators that apply to panicking exits only (in addition to the assigns clause)
+				for _, d := range splitTop(m[2], ',') {
+					c := mk("assigns", strings.TrimSpace(d))
+					c.AbruptOnly = true
+					cur.Assigns = append(cur.Assigns, c)
 				}
 			case "ghost":
 				cur.Ghost = append(cur.Ghost, parseParams(m[2])...)
